@@ -384,6 +384,18 @@ sqf::runtime::runtime::result sqf::runtime::runtime::execute(sqf::runtime::runti
 #ifdef SQFVM_RUNTIME_VERIF
                     if (sqf::verif::g_hooks.slice_begin) { sqf::verif::g_hooks.slice_begin(sqf::verif::g_hooks.ud, *this, i); }
 #endif // SQFVM_RUNTIME_VERIF
+                    if (m_context_active->terminate())
+                    { // `terminate` was used on this script: it gets removed at its scheduling point instead of receiving a slice
+                        m_contexts.erase(m_contexts.begin() + i);
+                        if (m_contexts.empty())
+                        {
+                            m_context_active = {};
+                            res = result::empty;
+                            goto start_loop_exit;
+                        }
+                        i--;
+                        continue;
+                    }
                     if (m_context_active->suspended())
                     {
 #ifdef SQFVM_RUNTIME_VERIF
